@@ -1,0 +1,16 @@
+//go:build verif
+
+package datadog
+
+import (
+	"github.com/relex/gotils/logger"
+	"github.com/relex/slog-agent/base"
+	"github.com/relex/slog-agent/output/shared"
+)
+
+// NewChunkMakerForVerif creates a chunk maker exactly as Config.NewChunkMaker does but with the given limits
+func NewChunkMakerForVerif(parentLogger logger.Logger, maxRecords, maxSizeBytes int) base.LogChunkMaker {
+	newChunkFunc := buildNewChunkFunc(parentLogger, maxRecords, maxSizeBytes)
+	chunkFactory := shared.NewChunkFactory(chunkIDSuffix, bufCapacity, newChunkFunc)
+	return shared.NewMessagePacker(parentLogger, chunkFactory)
+}
